@@ -118,7 +118,7 @@ pub fn run(ctx: &Ctx) -> Report {
             }
             rep.label(OP_NAMES[os.op as usize]);
             if rep.samples.len() < 3 && k == 5 {
-                rep.sample(json!({"case": c}));
+                rep.sample(json!({"case": c, "operation": OP_NAMES[os.op as usize], "pre_state": PRE_NAMES[os.pre as usize], "writer": if os.fe == 1 { "sharded" } else { "plain" }, "meaning": "the process is killed immediately before filesystem call #k of the operation"}));
             }
             if let Err((sig, detail)) = r {
                 if sig.starts_with("harness:") {
